@@ -172,6 +172,8 @@ pub mod proto {
         Release,
         /// one periodic-coordinator tick: (worker woken, shard count)
         Tick,
+        /// the free-space manager had no run for a record write: (blocks wanted, 0) + key, timestamp
+        AllocFail,
         /// a worker visited one of its shards: (worker id, shard id), timestamp = entries drained
         WorkerFlush,
     }
